@@ -8,13 +8,19 @@ package services
 // Resource-name validators: a name with four non-trivial segments is not empty (strings.Split is a dependency).
 //@ func isValidTopicName(name) (result)
 //@   trusted
+//@   uses tables
 //@   ensures result ==> name != ""
+//@   ensures result == valid_topic_name(name)
 //@ func isValidSubscriptionName(name) (result)
 //@   trusted
+//@   uses tables
 //@   ensures result ==> name != ""
+//@   ensures result == valid_subscription_name(name)
 //@ func isValidSnapshotName(name) (result)
 //@   trusted
+//@   uses tables
 //@   ensures result ==> name != ""
+//@   ensures result == valid_snapshot_name(name)
 
 // ---- C16: no decodable request makes a handler panic. "Decodable" = the request message itself is non-nil,
 // every singular message field may be nil, elements of repeated message fields are non-nil, scalars arbitrary.
@@ -25,11 +31,15 @@ package services
 //@   nopanic
 //@   requires s != nil && s.client != nil && req != nil && tables_wf()
 
+// C12: Get succeeds exactly for live resources: it answers with the resource of that name when one is live, and with an
+// error otherwise (storage failures aside).
 //@ func (*subscriberServer).GetSubscription(s, ctx, req) (resp, err)
-//@   property C16
+//@   property C16 C12
 //@   uses tables notifyspec
 //@   nopanic
 //@   requires s != nil && s.client != nil && req != nil && tables_wf()
+//@   ensures get_sound: [C12] err == nil ==> resp != nil && resp.Name == req.Subscription && valid_subscription_name(req.Subscription) && (exists x Id :: subscriptions.exists(x) && subscriptions.deleted_at$null(x) && subscriptions.name(x) == req.Subscription)
+//@   ensures get_complete: [C12] valid_subscription_name(req.Subscription) && (exists x Id :: subscriptions.exists(x) && subscriptions.deleted_at$null(x) && subscriptions.name(x) == req.Subscription) && (forall x Id, y Id :: {subscriptions.name(x), subscriptions.name(y)} subscriptions.exists(x) && subscriptions.deleted_at$null(x) && subscriptions.name(x) == req.Subscription && subscriptions.exists(y) && subscriptions.deleted_at$null(y) && subscriptions.name(y) == req.Subscription ==> x == y) && !dbfailed() ==> err == nil
 
 // C17: an update changes exactly the configuration named in its mask: every column of every other row, and every
 // column of the updated subscription whose mask path is not listed, is unchanged (mask_local); a listed path is
@@ -92,11 +102,15 @@ package services
 //@   nopanic
 //@   requires s != nil && s.client != nil && req != nil && tables_wf()
 
+// C12: Get succeeds exactly for resources: it answers with the resource of that name when one exists, and with an
+// error otherwise (storage failures aside).
 //@ func (*subscriberServer).GetSnapshot(s, ctx, req) (resp, err)
-//@   property C16
+//@   property C16 C12
 //@   uses tables notifyspec
 //@   nopanic
 //@   requires s != nil && s.client != nil && req != nil && tables_wf()
+//@   ensures get_sound: [C12] err == nil ==> resp != nil && resp.Name == req.Snapshot && valid_snapshot_name(req.Snapshot) && (exists x Id :: snapshots.exists(x) && snapshots.name(x) == req.Snapshot)
+//@   ensures get_complete: [C12] valid_snapshot_name(req.Snapshot) && (exists x Id :: snapshots.exists(x) && snapshots.name(x) == req.Snapshot) && (forall x Id, y Id :: {snapshots.name(x), snapshots.name(y)} snapshots.exists(x) && snapshots.name(x) == req.Snapshot && snapshots.exists(y) && snapshots.name(y) == req.Snapshot ==> x == y) && !dbfailed() ==> err == nil
 
 //@ func (*subscriberServer).CreateSnapshot(s, ctx, req) (resp, err)
 //@   property C16
@@ -122,11 +136,15 @@ package services
 //@   nopanic
 //@   requires s != nil && s.client != nil && req != nil && tables_wf()
 
+// C12: Get succeeds exactly for live resources: it answers with the resource of that name when one is live, and with an
+// error otherwise (storage failures aside).
 //@ func (*publisherServer).GetTopic(s, ctx, req) (resp, err)
-//@   property C16
+//@   property C16 C12
 //@   uses tables notifyspec
 //@   nopanic
 //@   requires s != nil && s.client != nil && req != nil && tables_wf()
+//@   ensures get_sound: [C12] err == nil ==> resp != nil && resp.Name == req.Topic && valid_topic_name(req.Topic) && (exists x Id :: topics.exists(x) && topics.deleted_at$null(x) && topics.name(x) == req.Topic)
+//@   ensures get_complete: [C12] valid_topic_name(req.Topic) && (exists x Id :: topics.exists(x) && topics.deleted_at$null(x) && topics.name(x) == req.Topic) && (forall x Id, y Id :: {topics.name(x), topics.name(y)} topics.exists(x) && topics.deleted_at$null(x) && topics.name(x) == req.Topic && topics.exists(y) && topics.deleted_at$null(y) && topics.name(y) == req.Topic ==> x == y) && !dbfailed() ==> err == nil
 
 // C17: UpdateTopic changes the labels of the named live topic iff "labels" is in the mask, and nothing else.
 //@ func (*publisherServer).UpdateTopic(s, ctx, req) (resp, err)
